@@ -42,6 +42,8 @@ var clashWords = [][]string{
 	{"http", "HTTP", "ht-tp", "h_ttp"},
 	{"rand", "Rand", "ra-nd", "json", "JSON", "js_on", "time", "errors", "fmt", "types"},
 	{"util", "utils", "common", "types", "v1", "api"},
+	// numbered fallback names that run into reserved std names: base3+"2" = base32, randv+"2" = randv2
+	{"base-3", "base_3", "base3", "Base3", "rand-v", "rand_v", "randv"},
 }
 var oddSegs = []string{"go", "type", "func", "map", "range", "select", "import", "package", "var", "chan", "default", "interface",
 	"2fa", "3d", "9", "007", "1x", "v2", "v1", "v10", "v0", "v", "v1beta1", "v-1", "v+2", "v99999999999999999999", "apis", "domain", "api",
@@ -150,10 +152,36 @@ func (g *gen) path(pool []string, self string) string {
 	return core.Pick(g.r, pool)
 }
 
-func (g *gen) history(malformed bool) input {
+// a history for a real gengo run: the file's package is a package of the synthetic module, only
+// snippet entry points, only paths an import declaration can carry
+func (g *gen) pipelineHistory() input {
+	self := pipeModule + "/" + core.Pick(g.r, []string{"self", "foo-bar", "rand", "core/v1", "go", "apis/x/v1", "x/2fa"})
+	for try := 0; ; try++ {
+		in := g.history(false, self)
+		in.Pipeline = true
+		for i, o := range in.Ops {
+			switch {
+			case o.K == "add":
+				in.Ops[i] = opIn{K: "ref", Via: "id", Path: o.Path, Name: "T"}
+			case o.K == "ref" && o.Via == "namer":
+				in.Ops[i].Via = "id"
+			case o.K == "ref" && o.Via == "obj":
+				in.Ops[i].Via = "idobj"
+			}
+		}
+		if pipelineOK(in) || try > 50 {
+			return in
+		}
+	}
+}
+
+func (g *gen) history(malformed bool, selfs ...string) input {
 	pool := g.pool(malformed)
 	self := "example.com/m/self"
-	if g.r.Chance(50) {
+	if len(selfs) > 0 {
+		self = selfs[0]
+		pool = append(pool, pipeModule+"/"+g.seg(), pipeModule+"/"+lastSeg(self)) // siblings of the own package
+	} else if g.r.Chance(50) {
 		self = core.Pick(g.r, pool)
 	}
 	var in input
@@ -178,11 +206,17 @@ func (g *gen) history(malformed bool) input {
 			if o.Via == "id" && (p == "" || strings.ContainsAny(p, "[],")) {
 				o.Via = "namer"
 			}
+		case k < 15: // a reflect.Type of a real Go type
+			key := core.Pick(g.r, reflectKeys())
+			e := reflectTypes[key]
+			o = opIn{K: "lit", Shape: e.shape, Elems: e.elems, Reflect: key}
 		default:
 			o = opIn{K: "lit", Shape: core.Pick(g.r, []string{"named", "ptr", "slice", "array", "chan", "map", "struct"})}
-			o.Elems = []node{g.node(pool, self, 0), g.node(pool, self, 0)}
-			if o.Shape != "map" && o.Shape != "struct" {
-				o.Elems = o.Elems[:1]
+			if o.Reflect == "" {
+				o.Elems = []node{g.node(pool, self, 0), g.node(pool, self, 0)}
+				if o.Shape != "map" && o.Shape != "struct" {
+					o.Elems = o.Elems[:1]
+				}
 			}
 		}
 		in.Ops = append(in.Ops, o)
@@ -221,6 +255,7 @@ func (prop) Generate(r *core.RNG, tier string) []json.RawMessage {
 		refs("example.com/m", "gopkg.in/yaml.v3", "gopkg.in/yaml.v2", "sigs.k8s.io/yaml"),
 		refs("example.com/m", "a.com/_-", "a.com/-", "a.com/_", ""),
 		refs("example.com/m", "a.com/x--y", "a.com/xy", "a.com/x..y"),
+		refs("example.com/m", "base-3", "base_3", "rand-v", "rand_v", "encoding/base32", "math/rand/v2"),
 		{Self: "example.com/m", Ops: []opIn{{K: "ref", Via: "id", Path: "example.com/o", Name: "List", Args: []node{{Path: "example.com/p/o", Name: "Item"}, {Name: "int"}, {Path: "example.com/m", Name: "Own"}}}}},
 		{Self: "example.com/m", Ops: []opIn{{K: "lit", Shape: "map", Elems: []node{{Path: "time", Name: "Duration"}, {Path: "example.com/time", Name: "Time", Args: []node{{Path: "a.com/go", Name: "T"}}}}}}},
 	}
@@ -229,10 +264,17 @@ func (prop) Generate(r *core.RNG, tier string) []json.RawMessage {
 	}
 	n := 700
 	if tier == "thorough" {
-		n = 12000
+		n = 6000
 	}
 	for i := 0; i < n; i++ {
 		out = append(out, marshal(g.history(r.Chance(10))))
+	}
+	np := 16
+	if tier == "thorough" {
+		np = 150
+	}
+	for i := 0; i < np; i++ {
+		out = append(out, marshal(g.pipelineHistory()))
 	}
 	if tier == "thorough" {
 		// exhaustive small scope: every sequence of length <= 3 over 7 clashing paths (self fixed)
